@@ -5,36 +5,77 @@ Open Scope N_scope.
 
 Notation hcall := (call hinfo N haccepts hdebug).
 
+(* ---------- the loop of a default body ---------- *)
+Lemma body_loop_ext step1 step2 finish :
+  (forall st ar mj aj, fst (step1 st ar mj aj) = fst (step2 st ar mj aj)) ->
+  forall cs st ar acc hl hl',
+  fst (body_loop step1 finish cs st ar acc hl) = fst (body_loop step2 finish cs st ar acc hl').
+Proof.
+  intros Hs. induction cs as [|[mj aj] cs IH]; intros st ar acc hl hl'; cbn [body_loop]; [reflexivity|].
+  specialize (Hs st ar mj aj).
+  destruct (step1 st ar mj aj) as [[[s3 ar3] r] h]. destruct (step2 st ar mj aj) as [[[s3' ar3'] r'] h'].
+  cbn [fst] in Hs. injection Hs as -> -> ->. destruct r' as [t|p]; [apply IH|reflexivity].
+Qed.
+
+(* the helper depth only feeds the last component: outcome, state and armed flag do not depend on it *)
+Lemma eval_act_h_depth fuel : forall cfg armed s1 m a b act d d',
+  fst (eval_act_h fuel cfg armed s1 m a b act d) = fst (eval_act_h fuel cfg armed s1 m a b act d').
+Proof.
+  induction fuel as [|f IH]; intros cfg armed s1 m a b act d d'; cbn [eval_act_h].
+  - destruct (user_panic armed act); [reflexivity|].
+    destruct act as [rv|g| | |e].
+    + destruct rv; reflexivity.
+    + destruct (2000 <=? g); reflexivity.
+    + destruct (m =? 13); [destruct (a =? 0); reflexivity|]. destruct (m =? 12); reflexivity.
+    + destruct ((m =? 2) || (m =? 3))%bool; reflexivity.
+    + reflexivity.
+  - destruct (user_panic armed act); [reflexivity|].
+    destruct act as [rv|g| | |e].
+    + destruct rv; reflexivity.
+    + destruct (2000 <=? g); [|reflexivity].
+      destruct (hcall cfg s1 14 0) as [s2 act2]. specialize (IH cfg armed s2 14 0 1 act2 d d').
+      destruct (eval_act_h f cfg armed s2 14 0 1 act2 d) as [[[s3 ar3] r] h].
+      destruct (eval_act_h f cfg armed s2 14 0 1 act2 d') as [[[s3' ar3'] r'] h']. cbn [fst] in *.
+      injection IH as -> -> ->. reflexivity.
+    + destruct (m =? 13).
+      * destruct (a =? 0); [reflexivity|].
+        destruct (hcall cfg s1 13 (a - 1)) as [s2 act2]. specialize (IH cfg armed s2 13 (a - 1) b act2 d d').
+        destruct (eval_act_h f cfg armed s2 13 (a - 1) b act2 d) as [[[s3 ar3] r] h].
+        destruct (eval_act_h f cfg armed s2 13 (a - 1) b act2 d') as [[[s3' ar3'] r'] h']. cbn [fst] in *.
+        injection IH as -> -> ->. reflexivity.
+      * destruct (m =? 12); reflexivity.
+    + destruct ((m =? 2) || (m =? 3))%bool; [reflexivity|].
+      apply body_loop_ext. intros st ar mj aj. destruct (hcall cfg st mj aj) as [s2 act2]. apply IH.
+    + reflexivity.
+Qed.
+
 (* ---------- direct calls: what a caller making the calls [cs] itself observes ---------- *)
-Fixpoint direct_calls (fuel : nat) (cfg : config) (armed : N) (st : state) (cs : list (N * N)) (acc : list string)
-  : state * N * (list string + string) :=
-  match cs with
-  | [] => (st, armed, inl acc)
-  | (mj, aj) :: cs' =>
-    let '(s2, act2) := hcall cfg st mj aj in
-    let '(s3, ar3, r) := eval_act fuel cfg armed s2 mj aj (aj + 1) act2 in
-    match r with
-    | inl t => direct_calls fuel cfg ar3 s3 cs' (acc ++ [t])%list
-    | inr p => (s3, ar3, inr p)
-    end
-  end.
+Definition direct_step (fuel : nat) (cfg : config) (st : state) (ar mj aj : N) : state * N * (string + string) * N :=
+  let '(s2, act2) := hcall cfg st mj aj in
+  (eval_act fuel cfg ar s2 mj aj (aj + 1) act2, 0).
+
+(* the responses joined by ",", or the first panic *)
+Definition direct_calls (fuel : nat) (cfg : config) (armed : N) (st : state) (cs : list (N * N))
+  : state * N * (string + string) :=
+  fst (body_loop (direct_step fuel cfg) (join ",") cs st armed [] 0).
 
 Definition is_d_provided (m : N) : bool :=
   (14 <=? m) && (m <=? 19).
 
-Definition body_text (m a : N) (parts : list string) : string :=
-  ("dflt" ++ dec m ++ "(" ++ dec a ++ ")[" ++ join "," parts ++ "]")%string.
+Definition body_text (m a : N) (parts : string) : string :=
+  ("dflt" ++ dec m ++ "(" ++ dec a ++ ")[" ++ parts ++ "]")%string.
 
 (* C15: running the default body through the mock IS making its required calls directly,
-   one after the other on the same shared state: same responses, same final state (counters,
-   ordered index, single-use slots, recorded errors), and the body's own result on top *)
+   one after the other on the same shared state: same responses (joined by ","), same final
+   state (counters, ordered index, single-use slots, recorded errors), the same panic if one of
+   them panics, and the body's own result on top *)
 Theorem delegation_is_direct_calls fuel cfg armed s1 m a b :
   is_d_provided m = true -> armed <> 2 ->
   eval_act (S fuel) cfg armed s1 m a b ActDefault =
-  let '(st, ar, r) := direct_calls fuel cfg armed s1 (body_calls a) [] in
+  let '(st, ar, r) := direct_calls fuel cfg armed s1 (body_calls a) in
   (st, ar, match r with inl parts => inl (body_text m a parts) | inr p => inr p end).
 Proof.
-  intros Hm Har. cbn [eval_act user_panic].
+  intros Hm Har. unfold eval_act. cbn [eval_act_h user_panic].
   destruct (N.eqb_spec armed 2) as [E|_]; [contradiction|].
   assert (H23 : ((m =? 2) || (m =? 3))%bool = false).
   { unfold is_d_provided in Hm. apply andb_true_iff in Hm as [H1 _]. apply N.leb_le in H1.
@@ -44,15 +85,19 @@ Proof.
   { unfold body_calls_of. unfold is_d_provided in Hm. apply andb_true_iff in Hm as [_ H2]. apply N.leb_le in H2.
     destruct (N.eqb_spec m 24); [lia|reflexivity]. }
   rewrite Hbc.
-  match goal with |- ?loop (body_calls a) s1 armed [] = _ =>
-    assert (G : forall cs st ar acc, loop cs st ar acc =
-              let '(st', ar', r) := direct_calls fuel cfg ar st cs acc in
-              (st', ar', match r with inl parts => inl (body_text m a parts) | inr p => inr p end))
-  end.
-  { induction cs as [|[mj aj] cs IH]; intros st ar acc; cbn [direct_calls]; [reflexivity|].
-    destruct (hcall cfg st mj aj) as [s2 act2].
-    destruct (eval_act fuel cfg ar s2 mj aj (aj + 1) act2) as [[s3 ar3] [t|p]]; [apply IH|reflexivity]. }
-  apply G.
+  (* the two loops differ only in what they do with the finished list and in the ghost level *)
+  assert (G : forall cs st ar acc hl hl',
+    fst (body_loop (fun st ar mj aj => let '(s2, act2) := hcall cfg st mj aj in eval_act_h fuel cfg ar s2 mj aj (aj + 1) act2 (0 + 1))
+                   (fun acc => ("dflt" ++ dec m ++ "(" ++ dec a ++ ")[" ++ join "," acc ++ "]")%string) cs st ar acc hl) =
+    let '(st', ar', r) := fst (body_loop (direct_step fuel cfg) (join ",") cs st ar acc hl') in
+    (st', ar', match r with inl parts => inl (body_text m a parts) | inr p => inr p end)).
+  { induction cs as [|[mj aj] cs IH]; intros st ar acc hl hl'; cbn [body_loop]; [reflexivity|].
+    unfold direct_step at 1. destruct (hcall cfg st mj aj) as [s2 act2].
+    pose proof (eval_act_h_depth fuel cfg ar s2 mj aj (aj + 1) act2 (0 + 1) 0) as E. unfold eval_act.
+    destruct (eval_act_h fuel cfg ar s2 mj aj (aj + 1) act2 (0 + 1)) as [[[s3 ar3] r] h].
+    destruct (eval_act_h fuel cfg ar s2 mj aj (aj + 1) act2 0) as [[[s3' ar3'] r'] h']. cbn [fst] in E |- *.
+    injection E as -> -> ->. destruct r' as [t|p]; [apply IH|reflexivity]. }
+  unfold direct_calls. apply G.
 Qed.
 
 (* the body calls exactly the required methods, with the caller's argument carried along *)
@@ -95,7 +140,7 @@ Theorem real_function_arguments fuel cfg armed s1 a b :
   eval_act fuel cfg armed s1 10 a b ActReal = (s1, armed, inl ("real10(" ++ dec a ++ ")")%string) /\
   eval_act fuel cfg armed s1 12 a b ActReal = (s1, armed, inl ("real12(" ++ dec b ++ "," ++ dec a ++ ")")%string).
 Proof.
-  intros Har. destruct fuel; cbn [eval_act user_panic]; destruct (N.eqb_spec armed 1); try contradiction; split; reflexivity.
+  intros Har. unfold eval_act. destruct fuel; cbn [eval_act_h user_panic]; destruct (N.eqb_spec armed 1); try contradiction; split; reflexivity.
 Qed.
 
 (* re-entrancy: the real function of u3 calls back into the mock; when those calls are
@@ -109,13 +154,15 @@ Theorem recursion_through_the_mock cfg armed b :
   forall n fuel s, (n <= fuel)%nat ->
   eval_act fuel cfg armed s 13 (N.of_nat n) b ActReal = (s, armed, inl (rec_text n ("base(" ++ dec b ++ ")")%string)).
 Proof.
-  intros Har Hreal. induction n as [|n IH]; intros fuel s Hle.
-  - destruct fuel; cbn [eval_act user_panic]; destruct (N.eqb_spec armed 1); try contradiction; reflexivity.
-  - destruct fuel as [|fuel]; [lia|]. cbn [eval_act user_panic]. destruct (N.eqb_spec armed 1); [contradiction|].
+  intros Har Hreal. unfold eval_act. induction n as [|n IH]; intros fuel s Hle.
+  - destruct fuel; cbn [eval_act_h user_panic]; destruct (N.eqb_spec armed 1); try contradiction; reflexivity.
+  - destruct fuel as [|fuel]; [lia|]. cbn [eval_act_h user_panic]. destruct (N.eqb_spec armed 1); [contradiction|].
     replace (13 =? 13) with true by reflexivity.
     destruct (N.eqb_spec (N.of_nat (S n)) 0) as [E|_]; [lia|].
     replace (N.of_nat (S n) - 1) with (N.of_nat n) by lia.
-    rewrite Hreal, (IH fuel s) by lia. reflexivity.
+    rewrite Hreal. specialize (IH fuel s ltac:(lia)).
+    destruct (eval_act_h fuel cfg armed s 13 (N.of_nat n) b ActReal 0) as [[[s3 ar3] r] h]. cbn [fst] in IH |- *.
+    injection IH as -> -> ->. reflexivity.
 Qed.
 
 (* a nested call that is answered by a pattern ends the recursion there with that response *)
@@ -124,9 +171,9 @@ Theorem recursion_stops_at_a_mocked_level cfg armed b fuel s a s2 v :
   hcall cfg s 13 (a - 1) = (s2, ActReturn (RVTag v)) -> v < 1000 ->
   eval_act (S fuel) cfg armed s 13 a b ActReal = (s2, armed, inl ("rec(r" ++ dec v ++ ")")%string).
 Proof.
-  intros Har Ha Hc Hv. cbn [eval_act user_panic]. destruct (N.eqb_spec armed 1); [contradiction|].
+  intros Har Ha Hc Hv. unfold eval_act. cbn [eval_act_h user_panic]. destruct (N.eqb_spec armed 1); [contradiction|].
   replace (13 =? 13) with true by reflexivity. destruct (N.eqb_spec a 0); [contradiction|].
-  rewrite Hc. destruct fuel; cbn [eval_act user_panic]; destruct (N.leb_spec 1000 v); try lia; reflexivity.
+  rewrite Hc. destruct fuel; cbn [eval_act_h user_panic]; destruct (N.leb_spec 1000 v); try lia; reflexivity.
 Qed.
 
 (* finding F1: `&mut self` (and Pin<&mut Self>) methods get no unmock arm from the macro,
